@@ -1,0 +1,807 @@
+/*
+ * Verification facade (cargo feature `verif`, off by default).
+ *
+ * Add-only plumbing that lets an out-of-crate harness drive the crate-private protocol engine,
+ * codec, validation functions and client implementation.  Contains no protocol logic of its own.
+ */
+
+#![allow(missing_docs)]
+#![allow(dead_code)]
+
+use crate::alias::*;
+use crate::client::*;
+use crate::client::config::*;
+use crate::decode::*;
+use crate::encode::*;
+use crate::error::{GneissError, GneissResult};
+use crate::mqtt::*;
+use crate::protocol::*;
+use crate::validate::*;
+
+use std::collections::VecDeque;
+use std::sync::{Arc, Mutex};
+use std::time::{Duration, Instant};
+
+/* ------------------------------------------------------------------------------------------ */
+/* Neutral views of crate-private data                                                         */
+/* ------------------------------------------------------------------------------------------ */
+
+#[derive(Copy, Clone, Debug, Eq, PartialEq, Hash)]
+pub enum EngineState {
+    Disconnected,
+    PendingConnack,
+    Connected,
+    PendingDisconnect,
+    Halted,
+}
+
+fn map_state(state: ProtocolStateType) -> EngineState {
+    match state {
+        ProtocolStateType::Disconnected => EngineState::Disconnected,
+        ProtocolStateType::PendingConnack => EngineState::PendingConnack,
+        ProtocolStateType::Connected => EngineState::Connected,
+        ProtocolStateType::PendingDisconnect => EngineState::PendingDisconnect,
+        ProtocolStateType::Halted => EngineState::Halted,
+    }
+}
+
+/// What a completion handler was called with (or that it was dropped without being called)
+#[derive(Debug)]
+pub enum Outcome {
+    Publish(PublishResult),
+    Subscribe(SubscribeResult),
+    Unsubscribe(UnsubscribeResult),
+    DroppedUncalled,
+}
+
+#[derive(Debug)]
+pub struct Completion {
+    pub tag: u64,
+    pub outcome: Outcome,
+}
+
+type CompletionLog = Arc<Mutex<Vec<Completion>>>;
+
+struct CompletionGuard {
+    tag: u64,
+    log: CompletionLog,
+    called: bool,
+}
+
+impl CompletionGuard {
+    fn record(&mut self, outcome: Outcome) {
+        self.called = true;
+        self.log.lock().unwrap().push(Completion { tag: self.tag, outcome });
+    }
+}
+
+impl Drop for CompletionGuard {
+    fn drop(&mut self) {
+        if !self.called {
+            if let Ok(mut log) = self.log.lock() {
+                log.push(Completion { tag: self.tag, outcome: Outcome::DroppedUncalled });
+            }
+        }
+    }
+}
+
+/// Packet events the engine surfaces to the client
+#[derive(Debug, Clone)]
+pub enum InboundEvent {
+    Connack(ConnackPacket),
+    Publish { packet: PublishPacket, packet_id: u16, topic_alias: Option<u16> },
+    Disconnect(DisconnectPacket),
+}
+
+fn map_packet_events(events: VecDeque<PacketEvent>) -> Vec<InboundEvent> {
+    events.into_iter().map(|event| {
+        match event {
+            PacketEvent::Connack(connack) => InboundEvent::Connack(connack),
+            PacketEvent::Publish(publish) => {
+                let packet_id = publish.packet_id;
+                let topic_alias = publish.topic_alias;
+                InboundEvent::Publish { packet: publish, packet_id, topic_alias }
+            }
+            PacketEvent::Disconnect(disconnect) => InboundEvent::Disconnect(disconnect),
+        }
+    }).collect()
+}
+
+#[derive(Debug, Clone, Default, Eq, PartialEq)]
+pub struct CurrentOperationView {
+    pub id: u64,
+    pub packet_type: String,
+    pub has_pubrel: bool,
+    pub exists: bool,
+}
+
+#[derive(Debug, Clone, Default, Eq, PartialEq)]
+pub struct Snapshot {
+    pub operations: usize,
+    pub user_queue: usize,
+    pub resubmit_queue: usize,
+    pub high_priority_queue: usize,
+    pub current_operation: Option<CurrentOperationView>,
+    pub pending_publish: usize,
+    pub pending_non_publish: usize,
+    pub pending_write_completion_operations: usize,
+    pub ack_timeouts: usize,
+    pub inbound_qos2: usize,
+    pub allocated_packet_ids: usize,
+    pub next_packet_id: u16,
+    pub pending_write_completion: bool,
+    pub slow_start_ack_count: u32,
+    pub user_queue_ids: Vec<u64>,
+    pub resubmit_queue_ids: Vec<u64>,
+    pub high_priority_queue_ids: Vec<u64>,
+}
+
+/* ------------------------------------------------------------------------------------------ */
+/* Protocol engine                                                                             */
+/* ------------------------------------------------------------------------------------------ */
+
+pub struct EngineConfig {
+    pub connect_options: ConnectOptions,
+    pub offline_queue_policy: OfflineQueuePolicy,
+    pub ping_timeout: Duration,
+    pub protocol_mode: ProtocolMode,
+    pub post_reconnect_queue_drain_policy: PostReconnectQueueDrainPolicy,
+    pub max_interrupted_retries: Option<u32>,
+    pub outbound_alias_resolver_factory: Option<OutboundAliasResolverFactoryFn>,
+}
+
+pub struct Engine {
+    state: ProtocolState,
+    base: Instant,
+    log: CompletionLog,
+}
+
+impl Engine {
+    pub fn new(config: EngineConfig) -> Engine {
+        let base = Instant::now();
+        let state_config = ProtocolStateConfig {
+            connect_options: config.connect_options,
+            base_timestamp: base,
+            offline_queue_policy: config.offline_queue_policy,
+            ping_timeout: config.ping_timeout,
+            outbound_alias_resolver: config.outbound_alias_resolver_factory.map(|f| { f() }),
+            protocol_mode: config.protocol_mode,
+            post_reconnect_queue_drain_policy: config.post_reconnect_queue_drain_policy,
+            max_interrupted_retries: config.max_interrupted_retries,
+        };
+
+        Engine {
+            state: ProtocolState::new(state_config),
+            base,
+            log: Arc::new(Mutex::new(Vec::new())),
+        }
+    }
+
+    fn at(&self, now: Duration) -> Instant {
+        self.base + now
+    }
+
+    pub fn open(&mut self, now: Duration, establishment_deadline: Duration) -> GneissResult<()> {
+        let mut packet_events = VecDeque::new();
+        let mut context = NetworkEventContext {
+            event: NetworkEvent::ConnectionOpened(ConnectionOpenedContext { establishment_timeout: self.at(establishment_deadline) }),
+            current_time: self.at(now),
+            packet_events: &mut packet_events,
+        };
+
+        self.state.handle_network_event(&mut context)
+    }
+
+    pub fn close(&mut self, now: Duration) -> GneissResult<()> {
+        let mut packet_events = VecDeque::new();
+        let mut context = NetworkEventContext {
+            event: NetworkEvent::ConnectionClosed,
+            current_time: self.at(now),
+            packet_events: &mut packet_events,
+        };
+
+        self.state.handle_network_event(&mut context)
+    }
+
+    pub fn incoming(&mut self, now: Duration, bytes: &[u8]) -> (GneissResult<()>, Vec<InboundEvent>) {
+        let mut packet_events = VecDeque::new();
+        let result = {
+            let mut context = NetworkEventContext {
+                event: NetworkEvent::IncomingData(bytes),
+                current_time: self.at(now),
+                packet_events: &mut packet_events,
+            };
+
+            self.state.handle_network_event(&mut context)
+        };
+
+        (result, map_packet_events(packet_events))
+    }
+
+    pub fn write_complete(&mut self, now: Duration) -> GneissResult<()> {
+        let mut packet_events = VecDeque::new();
+        let mut context = NetworkEventContext {
+            event: NetworkEvent::WriteCompletion,
+            current_time: self.at(now),
+            packet_events: &mut packet_events,
+        };
+
+        self.state.handle_network_event(&mut context)
+    }
+
+    pub fn service(&mut self, now: Duration, to_socket: &mut Vec<u8>) -> GneissResult<()> {
+        let mut context = ServiceContext {
+            to_socket,
+            current_time: self.at(now),
+        };
+
+        self.state.service(&mut context)
+    }
+
+    pub fn next_service(&mut self, now: Duration) -> Option<Duration> {
+        let current = self.at(now);
+        let base = self.base;
+        self.state.get_next_service_timepoint(&current).map(|timepoint| { timepoint.saturating_duration_since(base) })
+    }
+
+    pub fn reset(&mut self, now: Duration) {
+        let current = self.at(now);
+        self.state.reset(&current);
+    }
+
+    pub fn submit_publish(&mut self, now: Duration, mut packet: PublishPacket, options: PublishOptions, tag: u64, topic_alias: Option<u16>) {
+        if topic_alias.is_some() {
+            packet.topic_alias = topic_alias;
+        }
+
+        let mut guard = CompletionGuard { tag, log: self.log.clone(), called: false };
+        let handler: ResponseHandler<PublishResult> = Box::new(move |result| {
+            guard.record(Outcome::Publish(result));
+            Ok(())
+        });
+
+        let internal = PublishOptionsInternal { options, response_handler: Some(handler) };
+        let context = UserEventContext {
+            event: UserEvent::Publish(Box::new(MqttPacket::Publish(packet)), internal),
+            current_time: self.at(now),
+        };
+
+        self.state.handle_user_event(context);
+    }
+
+    pub fn submit_subscribe(&mut self, now: Duration, packet: SubscribePacket, options: SubscribeOptions, tag: u64) {
+        let mut guard = CompletionGuard { tag, log: self.log.clone(), called: false };
+        let handler: ResponseHandler<SubscribeResult> = Box::new(move |result| {
+            guard.record(Outcome::Subscribe(result));
+            Ok(())
+        });
+
+        let internal = SubscribeOptionsInternal { options, response_handler: Some(handler) };
+        let context = UserEventContext {
+            event: UserEvent::Subscribe(Box::new(MqttPacket::Subscribe(packet)), internal),
+            current_time: self.at(now),
+        };
+
+        self.state.handle_user_event(context);
+    }
+
+    pub fn submit_unsubscribe(&mut self, now: Duration, packet: UnsubscribePacket, options: UnsubscribeOptions, tag: u64) {
+        let mut guard = CompletionGuard { tag, log: self.log.clone(), called: false };
+        let handler: ResponseHandler<UnsubscribeResult> = Box::new(move |result| {
+            guard.record(Outcome::Unsubscribe(result));
+            Ok(())
+        });
+
+        let internal = UnsubscribeOptionsInternal { options, response_handler: Some(handler) };
+        let context = UserEventContext {
+            event: UserEvent::Unsubscribe(Box::new(MqttPacket::Unsubscribe(packet)), internal),
+            current_time: self.at(now),
+        };
+
+        self.state.handle_user_event(context);
+    }
+
+    pub fn submit_disconnect(&mut self, now: Duration, packet: DisconnectPacket) {
+        let context = UserEventContext {
+            event: UserEvent::Disconnect(Box::new(MqttPacket::Disconnect(packet))),
+            current_time: self.at(now),
+        };
+
+        self.state.handle_user_event(context);
+    }
+
+    pub fn take_completions(&mut self) -> Vec<Completion> {
+        std::mem::take(&mut *self.log.lock().unwrap())
+    }
+
+    pub fn state(&self) -> EngineState {
+        map_state(self.state.state())
+    }
+
+    pub fn negotiated_settings(&self) -> Option<NegotiatedSettings> {
+        self.state.get_negotiated_settings().clone()
+    }
+
+    pub fn snapshot(&self) -> Snapshot {
+        let state = &self.state;
+        let current_operation = state.current_operation.map(|id| {
+            if let Some(operation) = state.operations.get(&id) {
+                CurrentOperationView {
+                    id,
+                    packet_type: crate::mqtt::utils::mqtt_packet_to_str(&operation.packet).to_string(),
+                    has_pubrel: operation.qos2_pubrel.is_some(),
+                    exists: true,
+                }
+            } else {
+                CurrentOperationView { id, packet_type: String::new(), has_pubrel: false, exists: false }
+            }
+        });
+
+        Snapshot {
+            operations: state.operations.len(),
+            user_queue: state.user_operation_queue.len(),
+            resubmit_queue: state.resubmit_operation_queue.len(),
+            high_priority_queue: state.high_priority_operation_queue.len(),
+            current_operation,
+            pending_publish: state.pending_publish_operations.len(),
+            pending_non_publish: state.pending_non_publish_operations.len(),
+            pending_write_completion_operations: state.pending_write_completion_operations.len(),
+            ack_timeouts: state.operation_ack_timeouts.len(),
+            inbound_qos2: state.qos2_incomplete_incoming_publishes.len(),
+            allocated_packet_ids: state.allocated_packet_ids.len(),
+            next_packet_id: state.next_packet_id,
+            pending_write_completion: state.pending_write_completion,
+            slow_start_ack_count: state.slow_start_ack_count,
+            user_queue_ids: state.user_operation_queue.iter().copied().collect(),
+            resubmit_queue_ids: state.resubmit_operation_queue.iter().copied().collect(),
+            high_priority_queue_ids: state.high_priority_operation_queue.iter().copied().collect(),
+        }
+    }
+}
+
+/* ------------------------------------------------------------------------------------------ */
+/* Codec and validation                                                                        */
+/* ------------------------------------------------------------------------------------------ */
+
+/// Client-to-server packets the encoder can be asked to produce
+#[derive(Debug, Clone)]
+pub enum OutboundPacket {
+    Connect { options: ConnectOptions, connected_previously: bool, client_id_override: Option<String> },
+    Publish { packet: PublishPacket, packet_id: u16, duplicate: bool, topic_alias: Option<u16> },
+    Subscribe { packet: SubscribePacket, packet_id: u16 },
+    Unsubscribe { packet: UnsubscribePacket, packet_id: u16 },
+    Disconnect(DisconnectPacket),
+    Puback(u16),
+    Pubrec(u16),
+    Pubrel(u16),
+    Pubcomp(u16),
+    Pingreq,
+}
+
+fn to_mqtt_packet(packet: &OutboundPacket) -> MqttPacket {
+    match packet {
+        OutboundPacket::Connect { options, connected_previously, client_id_override } => {
+            let mut connect = options.to_connect_packet(*connected_previously);
+            if connect.client_id.is_none() && client_id_override.is_some() {
+                connect.client_id = client_id_override.clone();
+            }
+            MqttPacket::Connect(connect)
+        }
+        OutboundPacket::Publish { packet, packet_id, duplicate, topic_alias } => {
+            let mut publish = packet.clone();
+            publish.packet_id = *packet_id;
+            publish.duplicate = *duplicate;
+            if topic_alias.is_some() {
+                publish.topic_alias = *topic_alias;
+            }
+            MqttPacket::Publish(publish)
+        }
+        OutboundPacket::Subscribe { packet, packet_id } => {
+            let mut subscribe = packet.clone();
+            subscribe.packet_id = *packet_id;
+            MqttPacket::Subscribe(subscribe)
+        }
+        OutboundPacket::Unsubscribe { packet, packet_id } => {
+            let mut unsubscribe = packet.clone();
+            unsubscribe.packet_id = *packet_id;
+            MqttPacket::Unsubscribe(unsubscribe)
+        }
+        OutboundPacket::Disconnect(disconnect) => MqttPacket::Disconnect(disconnect.clone()),
+        OutboundPacket::Puback(packet_id) => MqttPacket::Puback(PubackPacket { packet_id: *packet_id, ..Default::default() }),
+        OutboundPacket::Pubrec(packet_id) => MqttPacket::Pubrec(PubrecPacket { packet_id: *packet_id, ..Default::default() }),
+        OutboundPacket::Pubrel(packet_id) => MqttPacket::Pubrel(PubrelPacket { packet_id: *packet_id, ..Default::default() }),
+        OutboundPacket::Pubcomp(packet_id) => MqttPacket::Pubcomp(PubcompPacket { packet_id: *packet_id, ..Default::default() }),
+        OutboundPacket::Pingreq => MqttPacket::Pingreq(PingreqPacket {}),
+    }
+}
+
+fn to_protocol_version(mode: ProtocolMode) -> ProtocolVersion {
+    convert_protocol_mode_to_protocol_version(mode)
+}
+
+/// Runs the real encoder over a sequence of destination buffer capacities (each >= 4; the last
+/// capacity is reused until the packet is complete).  Returns the concatenated bytes.
+pub fn encode(packet: &OutboundPacket, mode: ProtocolMode, resolution: OutboundAliasResolution, capacities: &[usize]) -> GneissResult<Vec<u8>> {
+    let mqtt_packet = to_mqtt_packet(packet);
+    let context = EncodingContext {
+        outbound_alias_resolution: resolution,
+        protocol_version: to_protocol_version(mode),
+    };
+
+    let mut encoder = Encoder::new();
+    encoder.reset(&mqtt_packet, &context)?;
+
+    let mut result = Vec::new();
+    let mut index = 0;
+    loop {
+        let capacity = if capacities.is_empty() { 4096 } else { capacities[usize::min(index, capacities.len() - 1)] };
+        index += 1;
+
+        let mut dest = Vec::with_capacity(capacity);
+        let encode_result = encoder.encode(&mqtt_packet, &mut dest)?;
+        result.extend_from_slice(&dest);
+        if encode_result == EncodeResult::Complete {
+            return Ok(result);
+        }
+    }
+}
+
+/// Server-to-client (and, for completeness, any) packets as produced by the real decoder
+#[derive(Debug, Clone)]
+pub enum DecodedPacket {
+    Connack(ConnackPacket),
+    Publish { packet: PublishPacket, packet_id: u16, topic_alias: Option<u16> },
+    Puback { packet: PubackPacket, packet_id: u16 },
+    Pubrec { packet: PubrecPacket, packet_id: u16 },
+    Pubrel { packet: PubrelPacket, packet_id: u16 },
+    Pubcomp { packet: PubcompPacket, packet_id: u16 },
+    Suback { packet: SubackPacket, packet_id: u16 },
+    Unsuback { packet: UnsubackPacket, packet_id: u16 },
+    Pingresp,
+    Disconnect(DisconnectPacket),
+    Auth { reason_code: u8, authentication_method: Option<String>, authentication_data: Option<Vec<u8>>, reason_string: Option<String>, user_properties: Option<Vec<UserProperty>> },
+    Other(String),
+}
+
+fn map_decoded(packet: MqttPacket) -> DecodedPacket {
+    match packet {
+        MqttPacket::Connack(connack) => DecodedPacket::Connack(connack),
+        MqttPacket::Publish(publish) => {
+            let packet_id = publish.packet_id;
+            let topic_alias = publish.topic_alias;
+            DecodedPacket::Publish { packet: publish, packet_id, topic_alias }
+        }
+        MqttPacket::Puback(ack) => { let packet_id = ack.packet_id; DecodedPacket::Puback { packet: ack, packet_id } }
+        MqttPacket::Pubrec(ack) => { let packet_id = ack.packet_id; DecodedPacket::Pubrec { packet: ack, packet_id } }
+        MqttPacket::Pubrel(ack) => { let packet_id = ack.packet_id; DecodedPacket::Pubrel { packet: ack, packet_id } }
+        MqttPacket::Pubcomp(ack) => { let packet_id = ack.packet_id; DecodedPacket::Pubcomp { packet: ack, packet_id } }
+        MqttPacket::Suback(ack) => { let packet_id = ack.packet_id; DecodedPacket::Suback { packet: ack, packet_id } }
+        MqttPacket::Unsuback(ack) => { let packet_id = ack.packet_id; DecodedPacket::Unsuback { packet: ack, packet_id } }
+        MqttPacket::Pingresp(_) => DecodedPacket::Pingresp,
+        MqttPacket::Disconnect(disconnect) => DecodedPacket::Disconnect(disconnect),
+        MqttPacket::Auth(auth) => DecodedPacket::Auth {
+            reason_code: auth.reason_code as u8,
+            authentication_method: auth.authentication_method,
+            authentication_data: auth.authentication_data,
+            reason_string: auth.reason_string,
+            user_properties: auth.user_properties,
+        },
+        other => DecodedPacket::Other(crate::mqtt::utils::mqtt_packet_to_str(&other).to_string()),
+    }
+}
+
+/// Stateful wrapper around the real decoder so that a harness can feed chunks one at a time.
+pub struct StreamDecoder {
+    decoder: Decoder,
+    mode: ProtocolMode,
+    maximum_packet_size: u32,
+}
+
+impl StreamDecoder {
+    pub fn new(mode: ProtocolMode, maximum_packet_size: u32) -> StreamDecoder {
+        StreamDecoder { decoder: Decoder::new(), mode, maximum_packet_size }
+    }
+
+    pub fn feed(&mut self, chunk: &[u8]) -> (Vec<DecodedPacket>, GneissResult<()>) {
+        let mut decoded_packets = VecDeque::new();
+        let result = {
+            let mut context = DecodingContext {
+                maximum_packet_size: self.maximum_packet_size,
+                protocol_version: to_protocol_version(self.mode),
+                decoded_packets: &mut decoded_packets,
+            };
+            self.decoder.decode_bytes(chunk, &mut context)
+        };
+
+        (decoded_packets.into_iter().map(|packet| { map_decoded(*packet) }).collect(), result)
+    }
+}
+
+/// Runs the real decoder over the chunks in order; returns every packet decoded and the first error
+pub fn decode(mode: ProtocolMode, maximum_packet_size: u32, chunks: &[&[u8]]) -> (Vec<DecodedPacket>, Option<GneissError>) {
+    let mut decoder = StreamDecoder::new(mode, maximum_packet_size);
+    let mut packets = Vec::new();
+    for chunk in chunks {
+        let (mut decoded, result) = decoder.feed(chunk);
+        packets.append(&mut decoded);
+        if let Err(error) = result {
+            return (packets, Some(error));
+        }
+    }
+
+    (packets, None)
+}
+
+/// The static (submission-time) validation the public clients apply
+pub fn validate_outbound(packet: &OutboundPacket) -> GneissResult<()> {
+    let mqtt_packet = to_mqtt_packet(packet);
+    validate_packet_outbound(&mqtt_packet)
+}
+
+/// The connection-dependent (send-time) validation the engine applies
+pub fn validate_outbound_internal(packet: &OutboundPacket, settings: &NegotiatedSettings, connect_options: &ConnectOptions, resolution: Option<OutboundAliasResolution>) -> GneissResult<()> {
+    let mqtt_packet = to_mqtt_packet(packet);
+    let context = OutboundValidationContext {
+        negotiated_settings: Some(settings),
+        connect_options: Some(connect_options),
+        outbound_alias_resolution: resolution,
+    };
+
+    validate_packet_outbound_internal(&mqtt_packet, &context)
+}
+
+/* ------------------------------------------------------------------------------------------ */
+/* Read accessors for option structs                                                           */
+/* ------------------------------------------------------------------------------------------ */
+
+#[derive(Debug, Clone)]
+pub struct ConnectOptionsView {
+    pub keep_alive_interval_seconds: Option<u16>,
+    pub rejoin_session_policy: RejoinSessionPolicy,
+    pub client_id: Option<String>,
+    pub username: Option<String>,
+    pub password: Option<Vec<u8>>,
+    pub session_expiry_interval_seconds: Option<u32>,
+    pub request_response_information: Option<bool>,
+    pub request_problem_information: Option<bool>,
+    pub receive_maximum: Option<u16>,
+    pub topic_alias_maximum: Option<u16>,
+    pub maximum_packet_size_bytes: Option<u32>,
+    pub will_delay_interval_seconds: Option<u32>,
+    pub will: Option<PublishPacket>,
+    pub user_properties: Option<Vec<UserProperty>>,
+}
+
+pub fn view_connect_options(options: &ConnectOptions) -> ConnectOptionsView {
+    ConnectOptionsView {
+        keep_alive_interval_seconds: options.keep_alive_interval_seconds,
+        rejoin_session_policy: options.rejoin_session_policy,
+        client_id: options.client_id.clone(),
+        username: options.username.clone(),
+        password: options.password.clone(),
+        session_expiry_interval_seconds: options.session_expiry_interval_seconds,
+        request_response_information: options.request_response_information,
+        request_problem_information: options.request_problem_information,
+        receive_maximum: options.receive_maximum,
+        topic_alias_maximum: options.topic_alias_maximum,
+        maximum_packet_size_bytes: options.maximum_packet_size_bytes,
+        will_delay_interval_seconds: options.will_delay_interval_seconds,
+        will: options.will.clone(),
+        user_properties: options.user_properties.clone(),
+    }
+}
+
+#[derive(Debug, Clone)]
+pub struct ClientOptionsView {
+    pub offline_queue_policy: OfflineQueuePolicy,
+    pub connect_timeout: Duration,
+    pub ping_timeout: Duration,
+    pub has_outbound_alias_resolver_factory: bool,
+    pub reconnect_period_jitter: ExponentialBackoffJitterType,
+    pub base_reconnect_period: Duration,
+    pub max_reconnect_period: Duration,
+    pub reconnect_stability_reset_period: Duration,
+    pub protocol_mode: ProtocolMode,
+    pub post_reconnect_queue_drain_policy: Option<PostReconnectQueueDrainPolicy>,
+    pub max_interrupted_retries: Option<u32>,
+}
+
+pub fn view_client_options(options: &MqttClientOptions) -> ClientOptionsView {
+    ClientOptionsView {
+        offline_queue_policy: options.offline_queue_policy,
+        connect_timeout: options.connect_timeout,
+        ping_timeout: options.ping_timeout,
+        has_outbound_alias_resolver_factory: options.outbound_alias_resolver_factory.is_some(),
+        reconnect_period_jitter: options.reconnect_options.reconnect_period_jitter,
+        base_reconnect_period: options.reconnect_options.base_reconnect_period,
+        max_reconnect_period: options.reconnect_options.max_reconnect_period,
+        reconnect_stability_reset_period: options.reconnect_options.reconnect_stability_reset_period,
+        protocol_mode: options.protocol_mode,
+        post_reconnect_queue_drain_policy: options.post_reconnect_queue_drain_policy,
+        max_interrupted_retries: options.max_interrupted_retries,
+    }
+}
+
+pub fn publish_packet_id(packet: &PublishPacket) -> u16 { packet.packet_id }
+pub fn publish_topic_alias(packet: &PublishPacket) -> Option<u16> { packet.topic_alias }
+pub fn puback_packet_id(packet: &PubackPacket) -> u16 { packet.packet_id }
+pub fn pubrec_packet_id(packet: &PubrecPacket) -> u16 { packet.packet_id }
+pub fn pubcomp_packet_id(packet: &PubcompPacket) -> u16 { packet.packet_id }
+pub fn suback_packet_id(packet: &SubackPacket) -> u16 { packet.packet_id }
+pub fn unsuback_packet_id(packet: &UnsubackPacket) -> u16 { packet.packet_id }
+
+/* ------------------------------------------------------------------------------------------ */
+/* Client implementation (driver-level state machine)                                          */
+/* ------------------------------------------------------------------------------------------ */
+
+#[derive(Copy, Clone, Debug, Eq, PartialEq, Hash)]
+pub enum ImplState {
+    Stopped,
+    Connecting,
+    Connected,
+    PendingReconnect,
+    Shutdown,
+}
+
+fn map_impl_state(state: ClientImplState) -> ImplState {
+    match state {
+        ClientImplState::Stopped => ImplState::Stopped,
+        ClientImplState::Connecting => ImplState::Connecting,
+        ClientImplState::Connected => ImplState::Connected,
+        ClientImplState::PendingReconnect => ImplState::PendingReconnect,
+        ClientImplState::Shutdown => ImplState::Shutdown,
+    }
+}
+
+fn unmap_impl_state(state: ImplState) -> ClientImplState {
+    match state {
+        ImplState::Stopped => ClientImplState::Stopped,
+        ImplState::Connecting => ClientImplState::Connecting,
+        ImplState::Connected => ClientImplState::Connected,
+        ImplState::PendingReconnect => ClientImplState::PendingReconnect,
+        ImplState::Shutdown => ClientImplState::Shutdown,
+    }
+}
+
+pub struct ClientImpl {
+    inner: MqttClientImpl,
+    events: Arc<Mutex<Vec<Arc<ClientEvent>>>>,
+    log: CompletionLog,
+}
+
+impl ClientImpl {
+    pub fn new(client_options: MqttClientOptions, connect_options: ConnectOptions) -> ClientImpl {
+        let spawner: CallbackSpawnerFunction = Box::new(|event, callback| { (callback)(event) });
+
+        ClientImpl {
+            inner: MqttClientImpl::new(client_options, connect_options, spawner),
+            events: Arc::new(Mutex::new(Vec::new())),
+            log: Arc::new(Mutex::new(Vec::new())),
+        }
+    }
+
+    /// Start with a default listener that appends to the event log (what `start(Some(listener))` does)
+    pub fn start(&mut self) {
+        let events = self.events.clone();
+        let listener: ClientEventListener = Arc::new(move |event| {
+            events.lock().unwrap().push(event);
+        });
+
+        self.inner.handle_incoming_operation(OperationOptions::Start(Some(listener)));
+    }
+
+    pub fn stop(&mut self, disconnect: Option<DisconnectPacket>) {
+        let options = StopOptionsInternal {
+            disconnect: disconnect.map(|packet| { Box::new(MqttPacket::Disconnect(packet)) }),
+        };
+
+        self.inner.handle_incoming_operation(OperationOptions::Stop(options));
+    }
+
+    pub fn shutdown(&mut self) {
+        self.inner.handle_incoming_operation(OperationOptions::Shutdown());
+    }
+
+    pub fn submit_publish(&mut self, packet: PublishPacket, options: PublishOptions, tag: u64) {
+        let mut guard = CompletionGuard { tag, log: self.log.clone(), called: false };
+        let handler: ResponseHandler<PublishResult> = Box::new(move |result| {
+            guard.record(Outcome::Publish(result));
+            Ok(())
+        });
+
+        let internal = PublishOptionsInternal { options, response_handler: Some(handler) };
+        self.inner.handle_incoming_operation(OperationOptions::Publish(Box::new(MqttPacket::Publish(packet)), internal));
+    }
+
+    pub fn submit_subscribe(&mut self, packet: SubscribePacket, options: SubscribeOptions, tag: u64) {
+        let mut guard = CompletionGuard { tag, log: self.log.clone(), called: false };
+        let handler: ResponseHandler<SubscribeResult> = Box::new(move |result| {
+            guard.record(Outcome::Subscribe(result));
+            Ok(())
+        });
+
+        let internal = SubscribeOptionsInternal { options, response_handler: Some(handler) };
+        self.inner.handle_incoming_operation(OperationOptions::Subscribe(Box::new(MqttPacket::Subscribe(packet)), internal));
+    }
+
+    pub fn submit_unsubscribe(&mut self, packet: UnsubscribePacket, options: UnsubscribeOptions, tag: u64) {
+        let mut guard = CompletionGuard { tag, log: self.log.clone(), called: false };
+        let handler: ResponseHandler<UnsubscribeResult> = Box::new(move |result| {
+            guard.record(Outcome::Unsubscribe(result));
+            Ok(())
+        });
+
+        let internal = UnsubscribeOptionsInternal { options, response_handler: Some(handler) };
+        self.inner.handle_incoming_operation(OperationOptions::Unsubscribe(Box::new(MqttPacket::Unsubscribe(packet)), internal));
+    }
+
+    pub fn compute_optional_state_transition(&self) -> Option<ImplState> {
+        self.inner.compute_optional_state_transition().map(map_impl_state)
+    }
+
+    pub fn transition_to_state(&mut self, state: ImplState) -> GneissResult<()> {
+        self.inner.transition_to_state(unmap_impl_state(state))
+    }
+
+    pub fn handle_incoming_bytes(&mut self, bytes: &[u8]) -> GneissResult<()> {
+        self.inner.handle_incoming_bytes(bytes)
+    }
+
+    pub fn handle_write_completion(&mut self) -> GneissResult<()> {
+        self.inner.handle_write_completion()
+    }
+
+    pub fn handle_service(&mut self, outbound_data: &mut Vec<u8>) -> GneissResult<()> {
+        self.inner.handle_service(outbound_data)
+    }
+
+    pub fn get_next_connected_service_time(&mut self) -> Option<Instant> {
+        self.inner.get_next_connected_service_time()
+    }
+
+    pub fn advance_reconnect_period(&mut self) -> Duration {
+        self.inner.advance_reconnect_period()
+    }
+
+    pub fn connect_timeout(&self) -> Duration {
+        *self.inner.connect_timeout()
+    }
+
+    pub fn apply_connection_closed_error(&mut self, message: &str) {
+        self.inner.apply_error(GneissError::new_connection_closed(message.to_string()));
+    }
+
+    pub fn apply_connection_establishment_failure(&mut self, message: &str) {
+        self.inner.apply_error(GneissError::new_connection_establishment_failure(message.to_string()));
+    }
+
+    pub fn apply_error(&mut self, error: GneissError) {
+        self.inner.apply_error(error);
+    }
+
+    pub fn current_state(&self) -> ImplState {
+        map_impl_state(self.inner.get_current_state())
+    }
+
+    pub fn protocol_state(&self) -> EngineState {
+        map_state(self.inner.get_protocol_state())
+    }
+
+    pub fn take_events(&mut self) -> Vec<Arc<ClientEvent>> {
+        std::mem::take(&mut *self.events.lock().unwrap())
+    }
+
+    pub fn take_completions(&mut self) -> Vec<Completion> {
+        std::mem::take(&mut *self.log.lock().unwrap())
+    }
+}
+
+/* ------------------------------------------------------------------------------------------ */
+/* Threaded websocket stream wrapper                                                           */
+/* ------------------------------------------------------------------------------------------ */
+
+#[cfg(feature = "threaded-websockets")]
+pub fn ws_wrap<T>(stream: T) -> impl std::io::Read + std::io::Write where T: std::io::Read + std::io::Write {
+    let websocket = tungstenite::protocol::WebSocket::from_raw_socket(stream, tungstenite::protocol::Role::Client, None);
+    crate::client::synchronous::threaded::verif_ws_wrap(websocket)
+}
